@@ -173,6 +173,38 @@ def build_pool(seed):
         grp = national_calls(rng, cc) + national_calls(rng, cc)
         grp.append({"op": "random", "cc": cc, "seed": rng.randrange(1000), "use_registry": True})
         groups.append(grp)
+    # one object asked many questions in a row: the stricter question (national check digits / SWIFT compliance), which fails,
+    # between the plain ones - the answers to the plain questions on that same object stay what they are for a fresh object
+    n_reuse = 0
+    for cc in list(NATIONAL) + ["DE"]:
+        for _ in range(40):
+            b = g.bban(cc, rng, "digits") if cc != "DE" else rng.choice(st["by_method"][rng.choice([x for x in st["impl"] if st["by_method"].get(x)])]) + \
+                "".join(rng.choice("0123456789") for _ in range(10))
+            t = g.iban_of(cc, b)
+            if onat.ref(cc, b, o.positions(cc)) is False if cc != "DE" else True:
+                break
+        c = {"kind": "iban", "text": t}
+        grp = []
+        for what, arg in (("is_valid", None), ("validate", None), ("validate", {"validate_bban": True}), ("is_valid", None),
+                          ("validate", None), ("national", None), ("is_valid", None), ("validate", {"validate_bban": False}),
+                          ("validate", {"validate_bban": True}), ("snapshot", None), ("bic", None), ("validate", None)):
+            d = {"op": "obj", "create": c, "what": what}
+            if arg is not None:
+                d["arg"] = arg
+            grp.append(d)
+        groups.append(grp)
+        n_reuse += 1
+    for text in ("1234DEFF", "A1B2FR2AXXX", "GENODEM1GLS", "GENOXXM1GLS"):
+        c = {"kind": "bic", "text": text}
+        grp = []
+        for what, arg in (("is_valid", None), ("validate", None), ("validate", {"enforce_swift_compliance": True}), ("is_valid", None),
+                          ("validate", None), ("validate", {"enforce_swift_compliance": False}), ("snapshot", None), ("exists", None),
+                          ("validate", {"enforce_swift_compliance": True}), ("is_valid", None)):
+            d = {"op": "obj", "create": c, "what": what}
+            if arg is not None:
+                d["arg"] = arg
+            grp.append(d)
+        groups.append(grp)
     # bank keys whose registry entries are interesting (several entries, primary not first, several BICs) + ordinary ones
     from .c12 import place_key, real, ref_candidates
     R = real()
